@@ -21,6 +21,21 @@ open DaeVerif.C07 DaeVerif.RuleScan
 never a rule's outbound (`upstream "…" not found`). -/
 def OutsOK (rs : List SrcRule) (fb : Nat) : Prop := (∀ r ∈ rs, r.out < 0xFE) ∧ fb < 0xFE
 
+/-- What the dae parser guarantees of a rule list (`empty parameter list is not supported`,
+a rule has at least one call); `internal` calls are not DNS conditions. -/
+def WellFormed (rs : List SrcRule) : Prop :=
+  ∀ r ∈ rs, r.funcs ≠ [] ∧ ∀ f ∈ r.funcs, f.nonEmpty = true
+
+/-- The builder model accepts every well-formed rule list, so the hypothesis
+`compile rs fb = some P` of the theorems below holds for everything the parser can hand over. -/
+theorem builder_accepts_wellformed (rs : List SrcRule) (fb : Nat) (h : WellFormed rs) :
+    (compile rs fb).isSome = true := by
+  have := toRules_isSome rs h
+  unfold compile
+  cases hR : toRules rs with
+  | none => simp [hR] at this
+  | some R => rfl
+
 /-! ## Clause 1 — questions are routed by the first matching request rule -/
 
 /-- **Request routing is first-match.** For every request rule list and fallback the builder
@@ -37,6 +52,14 @@ theorem request_match_is_first_match (rs : List SrcRule) (fb : Nat) (P : Prog) (
     simp [requestMatch, scanGo_compile env _ fb P hc hout hw.2]
   · cases hc
 
+-- non-vacuity: a four-rule list (two conditions, negation, two keys, an internal rule) compiles,
+-- satisfies `OutsOK`, and the three questions below take three different exits.
+example : (compileRequest Ex.reqRules 0xFD).isSome = true ∧ OutsOK Ex.reqRules 0xFD := by
+  refine ⟨by decide, ?_⟩; unfold OutsOK Ex.reqRules; decide
+example : firstMatchSrc Ex.envExample (splitRequestRules Ex.reqRules) 0xFD = 1 := by decide     -- rule 1 → u1
+example : firstMatchSrc Ex.envXorg (splitRequestRules Ex.reqRules) 0xFD = 0xFC := by decide     -- rule 3 → reject
+example : firstMatchSrc Ex.envOther (splitRequestRules Ex.reqRules) 0xFD = 0xFD := by decide    -- fallback → asis
+
 /-- "first matching rule" spelled out (no recursion to read): either the list splits as
 `pre ++ r :: post` with no rule of `pre` holding, `r` holding and the result being `r`'s outbound,
 or no rule holds and the result is the fallback. -/
@@ -51,14 +74,21 @@ same `ToLower(TrimSuffix(·, "."))` are routed alike by every rule list (same re
 theorem name_case_and_trailing_dot (rs : List SrcRule) (fb : Nat) (env : Env) (n' : List Char)
     (h1 : env.name ≠ []) (h2 : n' ≠ []) (hn : normName env.name = normName n') :
     firstMatchSrc { env with name := n' } rs fb = firstMatchSrc env rs fb := by
+  have e1 : (env.name != []) = true := by simpa using h1
+  have e2 : (n' != []) = true := by simpa using h2
   have hf : ∀ f : Func, f.holds { env with name := n' } = f.holds env := by
     intro f
-    cases f <;> simp [Func.holds, Func.anyParam, hn, h1, h2]
+    cases f <;> simp [Func.holds, Func.anyParam, hn, e1, e2]
   have hr : ∀ r : SrcRule, r.holds { env with name := n' } = r.holds env := by
-    intro r; simp [SrcRule.holds, hf]
+    intro r; simp only [SrcRule.holds]; congr 1; funext f; exact hf f
   induction rs with
   | nil => rfl
   | cons r rs ih => simp [firstMatchSrc, hr, ih]
+
+example : Ex.envExample.name ≠ [] ∧ "a.example.com".toList ≠ [] ∧
+    normName Ex.envExample.name = normName "a.example.com".toList := by decide
+-- ... but only ONE dot is trimmed: `a.example.com..` is a different name
+example : normName "a.example.com..".toList ≠ normName "a.example.com".toList := by decide
 
 /-- `RequestSelect`: the decoded decision. `reject`/`asis` are the bytes `0xFC`/`0xFD`; any other
 byte is an upstream index, which the builder took from the defined upstreams (`< nUp`). -/
@@ -83,21 +113,31 @@ theorem request_select_is_first_match (cfg : Cfg) (rs : List SrcRule) (fb : Nat)
   unfold requestSelect
   rw [request_match_is_first_match rs fb cfg.req (reqEnv q) hc hw]
   have hm := firstMatchSrc_mem (reqEnv q) (splitRequestRules rs) fb
-  have : firstMatchSrc (reqEnv q) (splitRequestRules rs) fb < cfg.nUp ∨ _ = 0xFC ∨ _ = 0xFD := by
+  have : firstMatchSrc (reqEnv q) (splitRequestRules rs) fb < cfg.nUp ∨
+      firstMatchSrc (reqEnv q) (splitRequestRules rs) fb = 0xFC ∨
+      firstMatchSrc (reqEnv q) (splitRequestRules rs) fb = 0xFD := by
     apply hup
     rcases hm with h | ⟨r, hr, h⟩
     · exact Or.inl h
     · exact Or.inr ⟨r, (List.mem_filter.mp hr).1, h⟩
+  generalize firstMatchSrc (reqEnv q) (splitRequestRules rs) fb = o at this
   simp only [decodeReq]
-  split
-  · rfl
-  · split
-    · rfl
-    · rename_i h1 h2
-      have h1' : ¬ firstMatchSrc (reqEnv q) (splitRequestRules rs) fb = 0xFC := by simpa using h1
-      have h2' : ¬ firstMatchSrc (reqEnv q) (splitRequestRules rs) fb = 0xFD := by simpa using h2
-      have : ¬ firstMatchSrc (reqEnv q) (splitRequestRules rs) fb ≥ cfg.nUp := by omega
-      simp [this]
+  rcases this with h | h | h
+  · have a : (o == 0xFC) = false := by simp; omega
+    have b : (o == 0xFD) = false := by simp; omega
+    have c : ¬ o ≥ cfg.nUp := by omega
+    simp [a, b, c]
+  · subst h; simp
+  · subst h; simp
+
+example : compileRequest Ex.reqRules 0xFD = some Ex.cfg2.req ∧ Ex.cfg2.nUp ≤ 0xFC ∧
+    (∀ o, (o = 0xFD ∨ ∃ r ∈ Ex.reqRules, o = r.out) → o < Ex.cfg2.nUp ∨ o = 0xFC ∨ o = 0xFD) := by
+  refine ⟨by decide, by decide, ?_⟩
+  intro o h
+  rcases h with rfl | ⟨x, hx, rfl⟩
+  · decide
+  · simp only [Ex.reqRules, List.mem_cons, List.mem_nil_iff, or_false] at hx
+    rcases hx with rfl | rfl | rfl | rfl <;> decide
 
 /-! ## Clause 3 — answers are routed by the first matching response rule -/
 
@@ -107,6 +147,16 @@ theorem response_match_is_first_match (rs : List SrcRule) (fb : Nat) (P : Prog) 
     responseMatch P env = .hit (firstMatchSrc env rs fb) := by
   have : (env.name == []) = false := by simpa using hn
   simp [responseMatch, this, scanGo_compile env rs fb P hc hw.1 hw.2]
+
+-- non-vacuity: an answer `[CNAME, A 10.1.2.3]` from u0 is re-asked at u1 (rule 1: answering
+-- upstream AND address in 10/8), the same answer from u1 is emptied (rule 2), from as-is too.
+example : (compile Ex.respRules 0xFC).isSome = true ∧ OutsOK Ex.respRules 0xFC ∧
+    (respEnv Ex.respPolluted (.up 0)).name ≠ [] := by
+  refine ⟨by decide, ?_, by decide⟩; unfold OutsOK Ex.respRules; decide
+example : firstMatchSrc (respEnv Ex.respPolluted (.up 0)) Ex.respRules 0xFC = 1 := by decide
+example : firstMatchSrc (respEnv Ex.respPolluted (.up 1)) Ex.respRules 0xFC = 0xFD := by decide
+example : responseSelect Ex.cfg2 Ex.respPolluted (.up 0) = .next 1 := by decide
+example : responseSelect Ex.cfg2 Ex.respPolluted .asis = .reject := by decide
 
 /-- An answer without a usable question name is not routed at all (the matcher returns an error). -/
 theorem response_match_empty_name (P : Prog) (env : Env) (hn : env.name = []) :
@@ -129,18 +179,18 @@ theorem response_select_is_first_match (cfg : Cfg) (rs : List SrcRule) (fb : Nat
   have henv : (respEnv r u).name ≠ [] := by simp [respEnv, hq, hname]
   unfold responseSelect
   rw [response_match_is_first_match rs fb cfg.resp (respEnv r u) hc hw henv]
-  have : firstMatchSrc (respEnv r u) rs fb < cfg.nUp ∨ _ = 0xFC ∨ _ = 0xFD :=
+  have : firstMatchSrc (respEnv r u) rs fb < cfg.nUp ∨ firstMatchSrc (respEnv r u) rs fb = 0xFC ∨
+      firstMatchSrc (respEnv r u) rs fb = 0xFD :=
     hup _ (firstMatchSrc_mem (respEnv r u) rs fb)
-  simp only [hresp, decodeResp]
-  split
-  · simp
-  · split
-    · simp
-    · rename_i h1 h2
-      have h1' : ¬ firstMatchSrc (respEnv r u) rs fb = 0xFC := by simpa using h1
-      have h2' : ¬ firstMatchSrc (respEnv r u) rs fb = 0xFD := by simpa using h2
-      have : ¬ firstMatchSrc (respEnv r u) rs fb ≥ cfg.nUp := by omega
-      simp [this]
+  generalize firstMatchSrc (respEnv r u) rs fb = o at this
+  simp only [hresp, decodeResp, Bool.not_true, Bool.false_eq_true, if_false]
+  rcases this with h | h | h
+  · have a : (o == 0xFC) = false := by simp; omega
+    have b : (o == 0xFD) = false := by simp; omega
+    have c : ¬ o ≥ cfg.nUp := by omega
+    simp [a, b, c]
+  · subst h; simp
+  · subst h; simp
 
 /-- The addresses a response rule sees are exactly the A / AAAA records of the answer section
 (IPv4 in mapped form); other records contribute nothing. -/
@@ -160,8 +210,16 @@ theorem reject_beats_cache (cfg : Cfg) (cache : Cache) (dst : Nat) (q : Question
     (∀ sc, o.cache.lookup ⟨canonName q.name, q.qtype, sc⟩ = none) ∧
     (∀ k : CacheKey, ¬(k.name = canonName q.name ∧ k.qtype = q.qtype) → o.cache.lookup k = cache.lookup k) := by
   simp only [handle, Option.getD_some, h, Bool.false_eq_true, if_false]
-  exact ⟨rfl, rfl, fun sc => lookup_removeFamily_same cache _ _ sc,
+  exact ⟨trivial, trivial, fun sc => lookup_removeFamily_same cache _ _ sc,
     fun k hk => lookup_removeFamily_other cache _ _ k hk⟩
+
+-- non-vacuity: the cache holds two answers for the rejected question (two scopes) and one for
+-- another name; the question is rejected, both are gone, the other stays.
+example : requestSelect Ex.cfgRejectAll Ex.qCached = .reject ∧
+    Ex.cacheWithAnswer.lookup ⟨canonName Ex.qCached.name, 1, .asis 1⟩ = some [.a 0x01020304] ∧
+    Ex.cacheWithAnswer.lookup ⟨canonName Ex.qCached.name, 1, .up 0⟩ = some [.a 0x05060708] := by decide
+example : (handle Ex.cfgRejectAll Ex.cacheWithAnswer 1 false (some Ex.qCached) (fun _ _ => none)).cache =
+    [(⟨"other.test.".toList, 1, .asis 1⟩, [.a 0x09090909])] := by decide
 
 /-- A cached answer is served only for questions that are not rejected, without asking anybody. -/
 theorem cache_hit_asks_nobody (cfg : Cfg) (cache : Cache) (dst : Nat) (q : Question) (ans : Upstreams)
@@ -187,7 +245,7 @@ theorem question_goes_to_selected_upstream (cfg : Cfg) (cache : Cache) (dst : Na
   · rw [dialSend_step cfg ans 0 u (by decide)]
     cases ans 0 u with
     | none => rfl
-    | some r => cases responseSelect cfg r u <;> rfl
+    | some r => cases hs : responseSelect cfg r u <;> simp [hs]
 
 /-- **What happens to an upstream answer** (one step of `dialSend` below the depth limit):
 no answer → error; accept → the answer as is; reject → the same message with the answer section
@@ -218,7 +276,7 @@ theorem final_answer_is_relayed_and_cached (cfg : Cfg) (cache : Cache) (dst : Na
     (r.cacheable = true → o.cache.lookup ⟨canonName q.name, q.qtype, scopeOf dst u⟩ = some r.recs) ∧
     (r.cacheable = false → o.cache = cache) := by
   simp only [handle, Option.getD_some, h, hmiss, hd, Bool.false_eq_true, if_false]
-  refine ⟨rfl, ?_, ?_⟩
+  refine ⟨trivial, ?_, ?_⟩
   · intro hc; simp only [hc, if_true]; exact lookup_store_same _ _ _
   · intro hc; simp [hc]
 
@@ -233,17 +291,22 @@ theorem reask_bounded (cfg : Cfg) (cache : Cache) (dst : Nat) (isResp : Bool) (q
     (handle cfg cache dst isResp q? ans).trace.length ≤ maxDnsLookupDepth := by
   have hb : ∀ u, (dialSend cfg ans 0 u).1.length ≤ maxDnsLookupDepth :=
     fun u => dialSend_trace_le cfg ans maxDnsLookupDepth 0 u rfl
-  unfold handle
-  split
-  · simp
-  · split
-    · simp
-    · simp
-    · split
-      · simp
-      · rename_i u _ _
+  cases isResp with
+  | true => simp [handle]
+  | false =>
+    simp only [handle, Bool.false_eq_true, if_false]
+    generalize q?.getD ⟨[], 0, []⟩ = q
+    cases requestSelect cfg q with
+    | err e => simp
+    | reject => simp
+    | to u =>
+      simp only
+      cases cache.lookup ⟨canonName q.name, q.qtype, scopeOf dst u⟩ with
+      | some recs => simp
+      | none =>
         have := hb u
-        split <;> (rename_i hd; rw [hd] at this; simpa using this)
+        cases hd : dialSend cfg ans 0 u with
+        | mk t r => rw [hd] at this; cases r <;> simpa using this
 
 /-- A rule set that sends every answer on to another upstream ends with the documented error
 after exactly `MaxDnsLookupDepth` queries, whatever the upstreams answer. -/
@@ -261,6 +324,30 @@ theorem bouncing_ends_with_error (cfg : Cfg) (ans : Upstreams) (u : UpRef)
   have e3 := dialSend_deep cfg ans 3 (.up k2) (by decide)
   rw [e0, e1, e2, e3]
   exact ⟨rfl, rfl⟩
+
+-- non-vacuity: `upstream(u0) -> u1; upstream(u1) -> u0; fallback: u0` sends EVERY answer on.
+example : ∀ (d : Nat) (v : UpRef), ∃ r k, (fun _ _ => some Ex.respLoop : Upstreams) d v = some r ∧
+    responseSelect Ex.bounceCfg r v = .next k := by
+  intro d v
+  refine ⟨Ex.respLoop, if v = .up 0 then 1 else 0, rfl, ?_⟩
+  have hc : compile Ex.bounceRules 0 = some Ex.bounceCfg.resp := by decide
+  have hup : ∀ o, (o = 0 ∨ ∃ x ∈ Ex.bounceRules, o = x.out) → o < Ex.bounceCfg.nUp ∨ o = 0xFC ∨ o = 0xFD := by
+    intro o h
+    rcases h with rfl | ⟨x, hx, rfl⟩
+    · decide
+    · simp only [Ex.bounceRules, List.mem_cons, List.mem_nil_iff, or_false] at hx
+      rcases hx with rfl | rfl <;> decide
+  rw [response_select_is_first_match Ex.bounceCfg Ex.bounceRules 0 Ex.respLoop v Ex.qLoop rfl (by decide) rfl hc hup
+    (by decide)]
+  cases v with
+  | asis => decide
+  | up k =>
+    by_cases h : k = 0
+    · subst h; decide
+    · by_cases h1 : k = 1
+      · subst h1; decide
+      · simp [decodeResp, firstMatchSrc, Ex.bounceRules, SrcRule.holds, Func.holds, Func.anyParam, Func.neg, respEnv,
+          Ex.respLoop, UpRef.index, h, h1]
 
 /-- A message with the response bit is never routed, forwarded or cached. -/
 theorem response_bit_refused (cfg : Cfg) (cache : Cache) (dst : Nat) (q? : Option Question) (ans : Upstreams) :
